@@ -17,11 +17,9 @@ from vlib.certs import pub_uncompressed, pub_compressed
 from vlib.refs import ALL_PATHS
 
 env.prepare()
-import admin.certificate_v2 as cv2                                   # noqa: E402
 import admin.verify_ledger_attestation as vla                        # noqa: E402
 import admin.verify_sgx_attestation as vsa                           # noqa: E402
 
-cv2.datetime = certs.FakeDatetime
 
 ID = "C08"
 LEVEL = "exploration"
